@@ -212,6 +212,14 @@ pub fn builder_type_twice_mode(name: &str, mode: u32) -> String {
     let n0 = b.module_ref().types_global_values.len();
     let r1 = match call_method_implicit(&mut b, name) { Some(r) => r, None => return "{\\"error\\": \\"unknown or skipped method\\"}".to_string() };
     let n1 = b.module_ref().types_global_values.len();
+    if mode == 3 {
+        // an id-less copy of the declaration just made is put in FRONT of all declarations (n1 counts it)
+        if let Some(mut copy) = b.module_ref().types_global_values.last().cloned() {
+            copy.result_id = None;
+            b.module_mut().types_global_values.insert(0, copy);
+        }
+    }
+    let n1 = if mode == 3 { b.module_ref().types_global_values.len() } else { n1 };
     if mode == 2 {
         // the declaration just made gets a decoration and a debug name before it is requested again
         if let Some(id) = b.module_ref().types_global_values.last().and_then(|i| i.result_id) {
